@@ -25,6 +25,7 @@ type c17Desc struct {
 	GateData int      `json:"gate_chk"` // ... and the peer has written GateData chunks
 	Cap      int      `json:"cap"`      // capacity of the pipe towards the peer (0 = unbounded)
 	Stall    bool     `json:"stall"`    // the peer never reads: writes beyond the capacity block until cancelled
+	ReplyTo  []int    `json:"reply_to,omitempty"` // client scenarios (ops S, V, C): the peer answers the request of these ops (and only these) when it sees it
 }
 
 type opRec struct {
@@ -101,11 +102,11 @@ func c17Body(d c17Desc) func() {
 					b, err = conn.ReadBytes(ctx, 0)
 					rec.data = string(b)
 				case "S":
-					receive, err = vc.Send(ctx, "x.y.M", nil, 0)
+					receive, err = vc.Send(ctx, fmt.Sprintf("x.y.M%d", i), nil, 0)
 				case "V":
 					if receive == nil {
 						// receive without a preceding Send: use a Send under the live context first
-						receive, _ = vc.Send(live, "x.y.M", nil, 0)
+						receive, _ = vc.Send(live, fmt.Sprintf("x.y.M%d", i), nil, 0)
 					}
 					var out interface{}
 					rec.flags, err = receive(ctx, &out)
@@ -114,7 +115,7 @@ func c17Body(d c17Desc) func() {
 					}
 				case "C":
 					var out interface{}
-					err = vc.Call(ctx, "x.y.M", nil, &out)
+					err = vc.Call(ctx, fmt.Sprintf("x.y.M%d", i), nil, &out)
 					if err == nil {
 						rec.data = jstr(out)
 					}
@@ -151,6 +152,25 @@ func c17Body(d c17Desc) func() {
 				vsched.Yield("gate", "X", gate)
 				c1.Cancel()
 			})
+		}
+		if d.ReplyTo != nil {
+			// a scripted service: reads requests, answers those of the listed operations
+			vsched.GoDaemon("PS", func() {
+				p := &rawPeer{c: peer}
+				for {
+					f, ok := p.readFrame()
+					if !ok {
+						return
+					}
+					for _, i := range d.ReplyTo {
+						if strings.Contains(f, fmt.Sprintf("x.y.M%d\"", i)) {
+							peer.Write([]byte(fmt.Sprintf("{\"parameters\":{\"op\":%d}}\x00", i)))
+							chunksWritten++
+						}
+					}
+				}
+			})
+			return
 		}
 		vsched.GoDaemon("PW", func() {
 			for _, c := range d.Chunks {
@@ -228,6 +248,13 @@ func c17Check(d c17Desc) func(x *vsched.Exec) (string, string) {
 				return fmt.Sprintf("op %d (%s) under a cancelled context failed with %q, which is neither a context nor a timeout error", i, r.op, r.err), "symptom=wrong-error"
 			}
 			switch r.op {
+			case "C", "V":
+				if r.ctxLive {
+					want := fmt.Sprintf("{\"op\":%d}", i)
+					if r.err != "" || r.data != want {
+						return fmt.Sprintf("op %d (%s) under a live context returned %q (err %q); the peer answered this request with %s and nothing else was outstanding", i, r.op, r.data, r.err, want), "symptom=reply-not-delivered-after-cancelled-call"
+					}
+				}
 			case "W":
 				if r.err == "" {
 					peerWant += fmt.Sprintf("w%d.", i)
@@ -266,7 +293,7 @@ func c17Check(d c17Desc) func(x *vsched.Exec) (string, string) {
 				}
 			}
 		}
-		if !strings.HasPrefix(st.peerGot, "") {
+		if !strings.HasPrefix(st.peerGot, "") || d.ReplyTo != nil {
 			return "", ""
 		}
 		// live writes arrive completely and in order (a cancelled write may or may not have arrived)
@@ -345,6 +372,19 @@ func scenariosC17(tier string) []Scen {
 				b = 3
 			}
 			out = append(out, Scen{Desc: d, Bound: b, Body: c17SvcBody(d), Check: c17SvcCheck, Obs: c17SvcObs})
+		}
+	}
+	// client connection: a Call (or a receive) cancelled while it waits for its reply, then the connection is used
+	// again; the peer answers only the second request
+	for _, ops := range [][]string{{"C", "C"}, {"V", "C"}} {
+		for _, kind := range []string{"cancel", "deadline"} {
+			for gop := 0; gop <= 1; gop++ {
+				b := 3
+				if tier != "quick" {
+					b = 4
+				}
+				add(c17Desc{Ops: ops, NCancel: 1, Kind: kind, GateOp: gop, ReplyTo: []int{1}}, b)
+			}
 		}
 	}
 	// a peer that never reads: every write is cancellable, the pipe holds 4 bytes, each write is 3 bytes
